@@ -6,7 +6,7 @@ WT="/tmp/$PRE-$P"
 for L in "$@"; do
   id="$P-$L"
   r=$(/verif/tools/confirm_seed.sh "$WT" "SEED-$L" "$id" 2>&1 | tail -1)
-  case "$r" in CONFIRMED*) ;; *) echo "$id: NOT CONFIRMED ($r)"; continue;; esac
+  case "$r" in CONFIRMED*) ;; *) echo "$id: NOT CONFIRMED ($r)"; KEEP=1; continue;; esac
   /verif/tools/seed_detect.sh "$id" "$P" >/tmp/take-$id.log 2>&1
   python3 - "$id" <<'PY'
 import json,sys
@@ -14,4 +14,4 @@ i=sys.argv[1]; m=json.load(open(f'/verif/seeded/{i}/meta.json'))
 d=m['detection']; print(i, 'CAUGHT' if any(v['caught'] for v in d.values()) else 'MISSED', {k:v['exit'] for k,v in d.items()}, '|', m.get('summary','')[:110])
 PY
 done
-git -C /repo worktree remove --force "$WT" 2>/dev/null
+[ -z "${KEEP:-}" ] && git -C /repo worktree remove --force "$WT" 2>/dev/null
